@@ -163,6 +163,13 @@ def build_driver(sc, has_cal, has_ctl):
         lines.append("StateAndVariance r3 = mf.tick(0.45 CTL_ARG);")
         lines.append('printf("held_at_last_reading %.3g\\n", maxdiff(r3, move(th, 0.45, h)));')
         readings = "\n  ".join(lines)
+    else:
+        # a filter without sensors still offers the readings overloads: an empty list of readings is a tick without readings
+        readings = "\n  ".join([
+            "std::vector<MF::StampedReading> rs;",
+            "StateAndVariance r2 = mf.tick(0.5 CTL_ARG, rs);",
+            'printf("readings %.3g\\n", maxdiff(r2, move(0.0, 0.5, s0)));',
+        ])
     src = DRIVER.replace("INIT_STATE", init).replace("CAL_DECL", cal_decl).replace("CTL_DECL", ctl_decl).replace("READINGS", readings)
     src = src.replace("CAL_ARG", ", cal" if has_cal else "").replace("CTL_ARG", ", ctl" if has_ctl else "")
     return src
@@ -201,7 +208,7 @@ def matrix_build(item):
         seen.add(k)
         if not float(v) <= 1e-9:
             problems.append(f"{k}: tick result differs from the hand-made call sequence by {v}")
-    want = {"noreadings", "nothing_held", "large_time_forward", "large_time_backward"} | ({"readings", "held_at_last_reading"} if has_sens else set())
+    want = {"noreadings", "nothing_held", "large_time_forward", "large_time_backward"} | ({"readings", "held_at_last_reading"} if has_sens else {"readings"})
     if out.returncode != 0 or want - seen:
         problems.append(f"driver failed (exit {out.returncode}, missing {sorted(want - seen)}): {out.stderr[-300:]}")
     return args, problems
